@@ -3,6 +3,8 @@
   `H` is an arbitrary hash function with 32 byte output.
 -/
 import Goloop.Proofs.C28
+import Goloop.Proofs.C28Batch
+import Goloop.Proofs.C28Tree
 namespace Goloop.C28
 
 /-- **C28 (altered proofs or hashes are rejected, or a collision is exhibited).**
@@ -141,22 +143,13 @@ theorem treeBucket_content_addressed (H : Bytes → Bytes) (ops : List Op) : DBO
       | setLen l => exact setLen_dbok h
   exact this ops _ (DBOk.nil H)
 
-/-- **C28 (what `Prove` returns, `Add` accepts) — partial.** After any history, finalise the
-    accumulator and open a prover tree on its bucket and a verifier tree with the same header on
-    *any* bucket. Whenever `Prove(key, 0)` succeeds, the verifier accepts that proof for the hash
-    found at position `key` of the last proof node.
-    Missing for the full clause "every added hash has a proof that the tree accepts"
-    (full statement: for a history that is `n` valid `Add`s of `xs`, and every `key < n`,
-    `Prove(key,0)` succeeds and the hash found is `xs[key]`): that `Prove` succeeds for every
-    `key < Len` and ends at the added hash. That part is checked by the correspondence run and the
-    oracle (every key for lengths up to 300, strided above) only. -/
-theorem proof_accepted_partial (H : Bytes → Bytes) (ops : List Op) (vdb : DB) (key : Nat)
-    (hd : Header) (db' : DB) (pt vt : Tree) (p : List Bytes)
-    (hf : (run H ops).1.finalize H (run H ops).2 = some (hd, db'))
+/-- what `Prove(key, 0)` reads from a content-addressed bucket is accepted by a verifier tree
+    with the same header on any bucket, for the hash found at the proof's end -/
+theorem accept_of_prove (H : Bytes → Bytes) (vdb : DB) (key : Nat)
+    (hd : Header) (db' : DB) (pt vt : Tree) (p : List Bytes) (hdb : DBOk H db')
     (hpt : newTree db' hd = some pt) (hvt : newTree vdb hd = some vt)
     (hp : pt.prove key 0 = .ok p) :
     (vt.add H key ((nodeGet (lastNode pt.root p) (key % 16)).getD []) p).2 = .ok := by
-  have hdb : DBOk H db' := finalize_dbok (treeBucket_content_addressed H ops) hf
   simp only [newTree] at hpt hvt
   split at hpt
   · rename_i hv
@@ -181,6 +174,18 @@ theorem proof_accepted_partial (H : Bytes → Bytes) (ops : List Op) (vdb : DB) 
         simp only [h1, if_false, Nat.lt_irrefl, gt_iff_lt, and_false, Nat.sub_self, List.drop_zero, hloop]
         simp
   · cases hpt
+
+/-- **what `Prove` returns, `Add` accepts, after any history** (Add / Finalize / SetLen with
+    any arguments): whenever `Prove(key, 0)` succeeds on the accumulator's bucket, a verifier
+    tree with the same header accepts that proof for the hash found at its end. (The full
+    statement for plain `Add` histories is `proof_accepted`.) -/
+theorem prove_output_accepted (H : Bytes → Bytes) (ops : List Op) (vdb : DB) (key : Nat)
+    (hd : Header) (db' : DB) (pt vt : Tree) (p : List Bytes)
+    (hf : (run H ops).1.finalize H (run H ops).2 = some (hd, db'))
+    (hpt : newTree db' hd = some pt) (hvt : newTree vdb hd = some vt)
+    (hp : pt.prove key 0 = .ok p) :
+    (vt.add H key ((nodeGet (lastNode pt.root p) (key % 16)).getD []) p).2 = .ok :=
+  accept_of_prove H vdb key hd db' pt vt p (finalize_dbok (treeBucket_content_addressed H ops) hf) hpt hvt hp
 
 /-- accumulator and bucket after `Add`ing the hashes `xs` one by one -/
 def addAll (H : Bytes → Bytes) (s : Acc × DB) (xs : List Bytes) : Acc × DB :=
@@ -215,6 +220,171 @@ theorem roots_are_base16_digits (H : Bytes → Bytes) (hlen : ∀ x, (H x).lengt
       exact this
   have := key xs hx ({}, db) 0 rfl (by intro r hr; simp at hr) (by simp [digits16])
   simpa using this
+
+/-- the accumulator after `Add`ing `xs` is the closed-form state of the sequence `xs` -/
+theorem addAll_state (H : Bytes → Bytes) (hlen : ∀ x, (H x).length = 32)
+    (xs : List Bytes) (hx : All32 xs) :
+    ∀ (s : List Bytes) (st : Acc × DB), All32 s → st.1 = { len := s.length, roots := rootsOf H s } →
+      (addAll H st xs).1 = { len := (s ++ xs).length, roots := rootsOf H (s ++ xs) } := by
+  induction xs with
+  | nil => intro s st _ h; simpa [addAll] using h
+  | cons x rest ih =>
+    intro s st hs h
+    have hxl : x.length = 32 := hx x (by simp)
+    obtain ⟨a1, a2⟩ := addAt_rootsOf H hlen _ s rfl hs x st.2 hxl
+    have hstep : (st.1.add H st.2 x).1 = { len := (s ++ [x]).length, roots := rootsOf H (s ++ [x]) } := by
+      simp only [Acc.add, h, a2, if_true, a1]; simp
+    have := ih (fun y hy => hx y (by simp [hy])) (s ++ [x])
+      ((st.1.add H st.2 x).1, (st.1.add H st.2 x).2.1) (hs.append (All32.single hxl)) hstep
+    simp only [addAll, List.foldl_cons] at this ⊢
+    simpa [List.append_assoc] using this
+
+/-- **C28 (the header is determined by the sequence alone).** After `Add`ing any sequence `xs`
+    of 32-byte hashes to the empty accumulator (any tree bucket), both `GetMerkleHeader` and
+    `Finalize` (on any bucket state) return `⟨batch xs, |xs|⟩`, where `batch` is the batch
+    definition of the hexary merkle root: a single hash is its own root, otherwise hash every
+    group of 16 consecutive hashes (the last group may be shorter) and repeat on the next level;
+    no root for the empty sequence. Any `H` with 32 byte output; no collision assumption. -/
+theorem header_is_function_of_sequence (H : Bytes → Bytes) (hlen : ∀ x, (H x).length = 32)
+    (xs : List Bytes) (hx : All32 xs) (db db2 : DB) :
+    let a := (addAll H ({}, db) xs).1
+    a.header H = some ⟨batch H xs, xs.length⟩ ∧
+    ∃ db', a.finalize H db2 = some (⟨batch H xs, xs.length⟩, db') := by
+  intro a
+  have ha : a = { len := xs.length, roots := rootsOf H xs } := by
+    have := addAll_state H hlen xs hx [] ({}, db) All32.nil (by simp [rootsOf_nil])
+    simpa using this
+  obtain ⟨d1, h1⟩ := carryFold_rootsOf H hlen false _ xs rfl hx none [] (by simp)
+  obtain ⟨d2, h2⟩ := carryFold_rootsOf H hlen true _ xs rfl hx none db2 (by simp)
+  simp only [Option.toList_none, List.append_nil] at h1 h2
+  constructor
+  · simp only [Acc.header, ha, h1]; rfl
+  · exact ⟨d2, by simp only [Acc.finalize, ha, h2]; rfl⟩
+
+theorem addAll_written (H : Bytes → Bytes) (hlen : ∀ x, (H x).length = 32)
+    (xs : List Bytes) (hx : All32 xs) :
+    ∀ (s : List Bytes) (st : Acc × DB), All32 s → st.1 = { len := s.length, roots := rootsOf H s } →
+      AllOk H st.2 → FW H (Vals st.2) s →
+      AllOk H (addAll H st xs).2 ∧ FW H (Vals (addAll H st xs).2) (s ++ xs) := by
+  induction xs with
+  | nil => intro s st _ _ h1 h2; simpa [addAll] using ⟨h1, h2⟩
+  | cons x rest ih =>
+    intro s st hs h hok hfw
+    have hxl : x.length = 32 := hx x (by simp)
+    obtain ⟨a1, a2⟩ := addAt_rootsOf H hlen _ s rfl hs x st.2 hxl
+    obtain ⟨w1, _, w3⟩ := addAt_written H hlen _ s rfl hs x st.2 hxl hok
+    have hstep : (st.1.add H st.2 x).1 = { len := (s ++ [x]).length, roots := rootsOf H (s ++ [x]) } := by
+      simp only [Acc.add, h, a2, if_true, a1]; simp
+    have hdb : (st.1.add H st.2 x).2.1 = (addAt H (rootsOf H s) x st.2).2.1 := by
+      simp only [Acc.add, h]; split <;> rfl
+    have := ih (fun y hy => hx y (by simp [hy])) (s ++ [x])
+      ((st.1.add H st.2 x).1, (st.1.add H st.2 x).2.1) (hs.append (All32.single hxl)) hstep
+      (by rw [hdb]; exact w1) (by rw [hdb]; exact w3 hfw)
+    simp only [addAll, List.foldl_cons] at this ⊢
+    simpa [List.append_assoc] using this
+
+/-- **C28 (every added hash has a proof that the tree accepts).** `Add` any sequence `xs` of
+    32-byte hashes to the empty accumulator over a content-addressed bucket `db0` (e.g. the
+    empty one). Then `Finalize` succeeds with header `⟨batch xs, |xs|⟩`, and if the resulting
+    tree bucket holds no two different values with the same hash (`NoCollVals`: an explicit
+    finite list — otherwise a collision of `H` is exhibited in the bucket), then for every
+    `key < |xs|`: `NewMerkleTree` on that bucket succeeds, `Prove(key, 0)` returns a proof, and a
+    verifier tree with the same header on *any* bucket accepts that proof for `xs[key]`. -/
+theorem proof_accepted (H : Bytes → Bytes) (hlen : ∀ x, (H x).length = 32)
+    (xs : List Bytes) (hx : All32 xs) (db0 : DB) (hdb0 : AllOk H db0)
+    (key : Nat) (hkey : key < xs.length) :
+    ∃ db', (addAll H ({}, db0) xs).1.finalize H (addAll H ({}, db0) xs).2
+        = some (⟨batch H xs, xs.length⟩, db') ∧
+      (NoCollVals H db' →
+        ∃ pt, newTree db' ⟨batch H xs, xs.length⟩ = some pt ∧
+          ∀ vdb, ∃ vt p, newTree vdb ⟨batch H xs, xs.length⟩ = some vt ∧
+            pt.prove key 0 = .ok p ∧ (vt.add H key (xs.getD key []) p).2 = .ok) := by
+  have hstate := addAll_state H hlen xs hx [] ({}, db0) All32.nil (by simp [rootsOf_nil])
+  have hfw0 : FW H (Vals db0) [] := by
+    intro i j hj; exfalso
+    have : ∀ i, (U H ([] : List Bytes) i) = [] := by
+      intro i; induction i with
+      | zero => rfl
+      | succ i ih => simp only [U]; have : up H ([] : List Bytes) = [] := by simp [up]
+                     rw [this]; exact ih
+    rw [this] at hj; simp at hj
+  obtain ⟨hok1, hfw1⟩ := addAll_written H hlen xs hx [] ({}, db0) All32.nil (by simp [rootsOf_nil]) hdb0 hfw0
+  simp only [List.nil_append] at hstate hfw1
+  obtain ⟨db', hfold, hok', _, haw⟩ :=
+    fold_written H hlen _ xs rfl hx none (addAll H ({}, db0) xs).2 (by simp) hok1 hfw1
+  simp only [Option.toList_none, List.append_nil] at hfold haw
+  refine ⟨db', by simp only [Acc.finalize, hstate, hfold]; rfl, ?_⟩
+  intro hnc
+  have hpos : 0 < xs.length := by omega
+  have hst := storedT_of_written H hlen db' xs hx hok' hnc haw
+  obtain ⟨hL1, hL2⟩ := level_facts H xs hpos
+  -- the root
+  obtain ⟨r, hr⟩ : ∃ r, T H xs (levelFromLen xs.length) = [r] := by
+    cases hT : T H xs (levelFromLen xs.length) with
+    | nil => rw [hT] at hL1; simp at hL1
+    | cons a as =>
+      rw [hT] at hL1; simp at hL1
+      exact ⟨a, by rw [hL1]⟩
+  have hr32 : r.length = 32 := T_all32 H hlen xs hx _ r (by rw [hr]; simp)
+  have hbatch : batch H xs = some r := by rw [batch_eq_top H xs hpos, hr]; rfl
+  have hvalid : validNode r = true := by simp [validNode, hr32, hashLen, maxNodeBytes, maxChildren]
+  have hnew : ∀ d, newTree d ⟨batch H xs, xs.length⟩ =
+      some { db := d, level := levelFromLen xs.length, root := r, cap := xs.length } := by
+    intro d; simp [newTree, hbatch, hvalid]
+  refine ⟨_, hnew db', ?_⟩
+  intro vdb
+  -- what Prove reads
+  have hk0 : key / 16 ^ (levelFromLen xs.length + 1) = 0 := by
+    apply Nat.div_eq_of_lt
+    have := (levelFromLen_spec xs.length hpos).1
+    have : 16 ^ levelFromLen xs.length ≤ 16 ^ (levelFromLen xs.length + 1) :=
+      Nat.pow_le_pow_right (by omega) (by omega)
+    omega
+  have hroot : node (T H xs (levelFromLen xs.length)) (key / 16 ^ (levelFromLen xs.length + 1)) = r := by
+    rw [hk0, hr]; simp [node, chunk]
+  have hloop := proveLoop_spec H hlen db' xs hx hst key hkey (levelFromLen xs.length) hL2
+  rw [hroot] at hloop
+  have hprove : (⟨db', levelFromLen xs.length, r, xs.length⟩ : Tree).prove key 0 =
+      .ok (pathNodes H xs key (levelFromLen xs.length)) := by
+    unfold Tree.prove
+    simp only [hloop]
+    have hnn : ¬ ((levelFromLen xs.length : Int) < 0) := by omega
+    simp [hnn]
+  refine ⟨_, _, hnew vdb, hprove, ?_⟩
+  have hacc := accept_of_prove H vdb key ⟨batch H xs, xs.length⟩ db' _ _ _ hok'.dbok (hnew db') (hnew vdb) hprove
+  -- the hash found at the end of the proof is xs[key]
+  have hleaf : (nodeGet (lastNode r (pathNodes H xs key (levelFromLen xs.length))) (key % 16)).getD []
+      = xs.getD key [] := by
+    have hlast : lastNode r (pathNodes H xs key (levelFromLen xs.length)) = node xs (key / 16) := by
+      unfold lastNode
+      cases hL : levelFromLen xs.length with
+      | zero =>
+        simp only [pathNodes, List.getLast?_nil, Option.getD_none]
+        rw [hL] at hr
+        simp only [T] at hr
+        have : key = 0 := by rw [hr] at hkey; simpa using hkey
+        subst this
+        rw [hr]; simp [node, chunk]
+      | succ m => rw [pathNodes_last]; rfl
+    rw [hlast, node_get hx key]
+    simp [List.getD_eq_getElem?_getD]
+  simp only at hacc
+  rw [hleaf] at hacc
+  exact hacc
+
+/-- non-vacuity of the hypotheses of `header_is_function_of_sequence` / `proof_accepted`: a hash
+    with 32 byte output, two 32-byte leaves, and the finalised bucket holds no collision -/
+example : ∃ (H : Bytes → Bytes) (xs : List Bytes),
+    (∀ x, (H x).length = 32) ∧ All32 xs ∧ AllOk H ([] : DB) ∧ 1 < xs.length ∧
+    ∃ hd db', (addAll H ({}, []) xs).1.finalize H (addAll H ({}, []) xs).2 = some (hd, db') ∧
+      NoCollVals H db' :=
+  ⟨fun x => (x.reverse ++ List.replicate 32 0).take 32,
+   [List.replicate 32 1, List.replicate 32 2],
+   by intro x; simp, by intro x hx; simp at hx; rcases hx with h | h <;> simp [h],
+   AllOk.nil _, by simp,
+   ⟨some (List.replicate 32 2), 2⟩,
+   [(List.replicate 32 2, List.replicate 32 1 ++ List.replicate 32 2)],
+   by decide, by unfold NoCollVals; decide⟩
 
 /-- **C28 (header) — partial.** `GetMerkleHeader` and `Finalize` report the same header, and it
     depends only on `(Len, Roots)` — not on the tree bucket or on earlier finalisations.
